@@ -15,6 +15,7 @@ CONSTANTS
   RegWindows = {"ok", "expired", "notYet"}
   RegUsages = {"client", "server", "both", "none"}
   RegOthers = {TRUE}
+  TwoCNs = {TRUE}
   Routes = {"manifest", "lstatus", "sstatus", "events", "logs", "shell"}
   DTokens = {"own", "other", "padded", "zero", "alpha", "neg", "plus", "hex", "space", "overflow"}
   GTokens = {"own", "other", "zero", "alpha", "neg", "overflow"}
